@@ -547,6 +547,13 @@ def discharge_assert(prog, ctx, fk, b, i, kind, reph_fns, sub13, loop_bounds_ok,
                 if e.k == "bin" and e.a[0] in ("Add", "AddWithOverflow") and depth < 4:
                     a_, b_ = _len_leaves(e.a[1], depth + 1), _len_leaves(e.a[2], depth + 1)
                     return None if a_ is None or b_ is None else a_ + b_
+                if e.k == "bin" and e.a[0] in ("Mul", "MulWithOverflow") and depth < 4:
+                    x_, y_ = strip_refs(e.a[1]), strip_refs(e.a[2])
+                    for u_, c_ in ((x_, y_), (y_, x_)):
+                        if is_const(c_, "int") and 1 <= const_val(c_) <= 4:
+                            w_ = _len_leaves(u_, depth + 1)
+                            return None if w_ is None else w_ * const_val(c_)
+                    return None
                 if is_const(e, "int") and 0 <= const_val(e) <= 16:
                     return 0
                 return None
